@@ -1,6 +1,6 @@
-"""Coverage-guided fuzz targets (atheris / libFuzzer) for C09 and C14 -- an additional search in the thorough tier.
+"""Coverage-guided fuzz targets (atheris / libFuzzer) for C04, C09, C14 and C18 -- an additional search in the thorough tier.
 
-Run as a subprocess:  python -m vf.fuzz_targets <c09|c14> <out.json> [libFuzzer args...]
+Run as a subprocess:  python -m vf.fuzz_targets <c04|c09|c14|c18> <out.json> [libFuzzer args...]
 
 The target decodes fuzzer bytes through a FuzzedDataProvider layer into *structured* choices (template, fields,
 re-sign / re-encrypt) so the fuzzer gets past signatures and reaches the logic; the semantic oracle is inside the
@@ -26,6 +26,7 @@ def _setup():
         sys.path.insert(0, repo)
     with atheris.instrument_imports(include=["msmart"]):
         import msmart.lan  # noqa: F401
+        import msmart.discover  # noqa: F401
         import msmart.device.AC.command  # noqa: F401
         import msmart.device.AC.device  # noqa: F401
         import msmart.base_device  # noqa: F401
@@ -143,6 +144,114 @@ def main() -> None:
             except Exception as e:
                 report({"version": version, "phase": "send" if authed else "auth", "api": "lan", "hostile": recipe, "cuts": []},
                        f"fuzz/escapes/{type(e).__name__}", f"{e!r} from the transport decoders for hostile packet {pkt.hex()[:160]}")
+    elif target == "c18":
+        # discovery replies: raw bytes, or a fuzzer-chosen plaintext inside a correctly encrypted and signed V2 / V3
+        # envelope, or a well-formed body with a few bytes overwritten / cut.  Oracle: handling the datagram and the
+        # per-device task it starts never raises (the responder is omitted or reported, nothing else).
+        import asyncio
+        from msmart.discover import Discover, _DiscoverProtocol
+        from . import discsim
+        loop = asyncio.new_event_loop()
+        asyncio.set_event_loop(loop)
+
+        async def _no_tcp(*a, **kw):
+            raise OSError(113, "no route to host")
+        loop.create_connection = _no_tcp            # (V1/XML replies are queried over TCP: nothing to reach here)
+        body_ok = rc.discovery_body("10.0.9.1", 6444, "000000P0000000Q1F0C9D153F7B40000", "net_ac_F7B4", bytes(20))
+
+        async def handle(dgram: bytes):
+            Discover._auto_connect = False
+            proto = _DiscoverProtocol()
+            proto.datagram_received(dgram, ("10.0.9.1", 6445))
+            out = []
+            for t in list(proto.tasks):
+                out.append(await t)
+            return out
+
+        def one(data: bytes) -> None:
+            stats["execs"] += 1
+            fdp = atheris.FuzzedDataProvider(data)
+            mode = fdp.ConsumeIntInRange(0, 5)
+            if mode == 0:
+                dgram = fdp.ConsumeBytes(fdp.ConsumeIntInRange(0, 160))
+            elif mode == 1:
+                dgram = fdp.PickValueInList([b"\x5a\x5a", b"\x83\x70", b"<"]) + fdp.ConsumeBytes(fdp.ConsumeIntInRange(0, 160))
+            elif mode in (2, 3):
+                body = fdp.ConsumeBytes(fdp.ConsumeIntInRange(0, 120))
+                dgram = discsim.envelope(body, mode)
+            else:
+                b = bytearray(body_ok)
+                for _ in range(fdp.ConsumeIntInRange(1, 4)):
+                    if b:
+                        b[fdp.ConsumeIntInRange(0, len(b) - 1)] = fdp.ConsumeIntInRange(0, 255)
+                if fdp.ConsumeBool():
+                    b = b[:fdp.ConsumeIntInRange(0, len(b))]
+                dgram = discsim.envelope(bytes(b), 2 + fdp.ConsumeIntInRange(0, 1))
+                if mode == 5 and dgram:
+                    d = bytearray(dgram)
+                    d[fdp.ConsumeIntInRange(0, len(d) - 1)] ^= 1 << fdp.ConsumeIntInRange(0, 7)
+                    dgram = bytes(d)
+            try:
+                r_ = loop.run_until_complete(handle(dgram))
+                if os.environ.get("VF_FUZZ_DEBUG"): print("DBG", mode, len(dgram), r_, file=sys.stderr)
+            except BaseException as e:
+                good = {"ip": "10.0.0.10", "id": 0x10203040, "port": 6444, "sn": "SN" + "0" * 30, "tt": 0xAC, "suffix": "A0B", "version": 2,
+                        "listen_port": 6445, "extra": bytes(16).hex(), "good": True, "kind": "good"}
+                bad = {"ip": "10.0.9.1", "good": False, "kind": "random", "args": [dgram.hex()], "listen_port": 6445}
+                report({"hosts": [good, bad], "order": [1, 0]}, f"fuzz/raises/{type(e).__name__}", f"{e!r} while handling discovery reply {dgram.hex()[:200]}")
+
+    elif target == "c04":
+        # V3 stream reassembly: the fuzzer chooses packets (sizes, bodies that may contain the marker), marker-free
+        # garbage prefixes and the segmentation; every packet must be delivered exactly once, complete, in order and
+        # as soon as its last byte has arrived.
+        from msmart.lan import _LanProtocolV3
+
+        class _T:
+            def get_extra_info(self, *_a):
+                return ("10.0.0.1", 6444)
+
+            def is_closing(self):
+                return False
+
+        def one(data: bytes) -> None:
+            stats["execs"] += 1
+            fdp = atheris.FuzzedDataProvider(data)
+            items = []
+            for _ in range(fdp.ConsumeIntInRange(1, 4)):
+                g = bytes(x for x in fdp.ConsumeBytes(fdp.ConsumeIntInRange(0, 12)))
+                g = g.replace(b"\x83\x70", b"\x83\x71")
+                if g.endswith(b"\x83"):
+                    g = g[:-1] + b"\x84"
+                size = fdp.PickValueInList([0, 1, 2, 6, 8, 30, 62, fdp.ConsumeIntInRange(0, 300)])
+                body = fdp.ConsumeBytes(size)
+                body = body + bytes(size - len(body))
+                items.append({"garbage": g.hex(), "body": body.hex(), "pad": fdp.ConsumeIntInRange(0, 15), "type": fdp.ConsumeIntInRange(0, 15),
+                              "cnt": "%04x" % fdp.ConsumeIntInRange(0, 0xFFFF)})
+            stream = bytearray()
+            spans = []
+            for it in items:
+                stream += bytes.fromhex(it["garbage"])
+                body = bytes.fromhex(it["body"])
+                pkt = rc.v3_header(len(body), it["pad"], it["type"]) + bytes.fromhex(it["cnt"]) + body
+                spans.append((len(stream), len(stream) + len(pkt), pkt))
+                stream += pkt
+            ncuts = fdp.ConsumeIntInRange(0, 8)
+            cuts = sorted({fdp.ConsumeIntInRange(1, max(1, len(stream) - 1)) for _ in range(ncuts)}) if len(stream) > 1 else []
+            case = {"level": 1, "items": items, "cuts": cuts}
+            proto = _LanProtocolV3()
+            proto.connection_made(_T())
+            bounds = [0] + [c for c in cuts if 0 < c < len(stream)] + [len(stream)]
+            for a, b in zip(bounds, bounds[1:]):
+                try:
+                    proto.data_received(bytes(stream[a:b]))
+                except Exception as e:
+                    report(case, f"l1/raises/{type(e).__name__}", f"data_received raised {e!r} at chunk [{a}:{b}]")
+                got = []
+                while not proto._queue.empty():
+                    got.append(proto._queue.get_nowait())
+                want = [p for (s_, e_, p) in spans if a < e_ <= b]
+                if got != want:
+                    report(case, "l1/delivery", f"after chunk [{a}:{b}] got {[g.hex()[:40] for g in got]} want {[w.hex()[:40] for w in want]}")
     else:
         raise SystemExit(f"unknown target {target}")
 
